@@ -295,10 +295,13 @@ class err_handler(object):
         @param err_str: Description of the error
         @type err_str: string
         """
-        self._add_cur_ele()
-        self.cur_ele_node.add_error(
-            err_cde, err_str, bad_value)  # , pos, data_ele)
         sout = ''
+        try:
+            self._add_cur_ele()
+            self.cur_ele_node.add_error(
+                err_cde, err_str, bad_value)  # , pos, data_ele)
+        except Exception:
+            sout += 'No current segment in error_handler. '
         sout += 'Line:%i ' % (self.cur_seg_node.get_cur_line())
         sout += 'ELE:%s - %s' % (err_cde, err_str)
         if bad_value:
